@@ -83,7 +83,7 @@ func c11Run(raw []byte) (*Line, error) {
 			return nil, fmt.Errorf("bad n/q/c")
 		}
 		cf := float64(c.Cs[0])
-		if math.IsNaN(cf) || math.IsInf(cf, 0) || cf < 0 {
+		if math.IsNaN(cf) || math.IsInf(cf, 0) {
 			return nil, fmt.Errorf("bad c")
 		}
 		res := stats.QuantileCI(c.N, q, cf)
@@ -94,11 +94,18 @@ func c11Run(raw []byte) (*Line, error) {
 			// the oracle: the implementation's own normal quantile and CDF at the points the band logic uses
 			norm := stats.BinomialDist{N: c.N, P: q}.NormalApprox()
 			alpha := (1 - cf) / 2
+			if alpha > 0.5 { // quantileci.go:196: a confidence of zero or less asks for the centre only
+				alpha = 0.5
+			}
 			l1 := norm.InvCDF(alpha)
 			r1 := 2*norm.Mu - l1
 			l0 := int(math.Floor(math.Floor(l1-0.5)+0.5)) + 1
 			r0 := int(math.Floor(math.Ceil(r1-0.5)+0.5)) + 1
-			ch, cl, ch1 := norm.CDF(float64(r0)-0.5), norm.CDF(float64(l0)-0.5), norm.CDF(float64(r0-1)-0.5)
+			la := l0 // the left end the band logic uses (quantileci.go:226: an empty band keeps the bucket below)
+			if r0 <= l0 {
+				la = r0 - 1
+			}
+			ch, cl, ch1 := norm.CDF(float64(r0)-0.5), norm.CDF(float64(la)-0.5), norm.CDF(float64(r0-1)-0.5)
 			l.F(norm.Mu).F(l1).F(r1).I(l0).I(r0).F(ch - cl).F(ch1 - cl).F(norm.CDF(l1)).F(ch).F(cl).F(ch1)
 		}
 		c11Obs(l, res)
@@ -236,6 +243,105 @@ func c11Gen(tier string, rng *rand.Rand, emit func(interface{})) {
 			cf = ncs[rng.Intn(len(ncs))]
 		}
 		emit(c11Case{Op: 1, N: n, Q: F64(q), Cs: []F64{F64(cf)}})
+	}
+	// (b2) the 30/31 switch of quantileCIApproxThreshold: random (q, c) on both sides
+	nsw := 60
+	if thorough {
+		nsw = 600
+	}
+	for i := 0; i < nsw; i++ {
+		q := rng.Float64()
+		if rng.Intn(3) == 0 {
+			q = float64(rng.Intn(33)) / 32
+		}
+		var cs []F64
+		for j := 0; j < 8; j++ {
+			cs = append(cs, F64(rng.Float64()))
+		}
+		cs = append(cs, F64(1-math.Pow(10, -1-rng.Float64()*12)))
+		emit(c11Case{Op: 0, N: 30 - rng.Intn(2), Q: F64(q), Cs: cs, Auto: true})
+		for j := 0; j < 3; j++ {
+			emit(c11Case{Op: 1, N: 31 + rng.Intn(2), Q: F64(q), Cs: []F64{cs[rng.Intn(len(cs))]}})
+		}
+	}
+	// (b3) q within 1e-6 .. 1e-12 of 0 and 1 (all the mass in an end bucket, clamped bands)
+	ntiny := 24
+	if thorough {
+		ntiny = 300
+	}
+	for i := 0; i < ntiny; i++ {
+		q := math.Pow(10, -6-rng.Float64()*6)
+		if rng.Intn(2) == 0 {
+			q = 1 - q
+		}
+		cs := []F64{0.5, 0.9, 0.99, F64(rng.Float64()), F64(1 - math.Pow(10, -3-rng.Float64()*10))}
+		emit(c11Case{Op: 0, N: 1 + rng.Intn(30), Q: F64(q), Cs: cs, Auto: true})
+		for j := 0; j < 4; j++ {
+			n := []int{31, 32, 50, 100, 1000, 31 + rng.Intn(1970)}[rng.Intn(6)]
+			emit(c11Case{Op: 1, N: n, Q: F64(q), Cs: []F64{cs[rng.Intn(len(cs))]}})
+		}
+	}
+	// (b4) n > 30, c within a few units of 2^-53 of 1: the CDF saturates, the shorter band has the SAME
+	// float mass as the symmetric one (aBiased == Confidence: the trim must not be taken)
+	nsat := 200
+	if thorough {
+		nsat = 3000
+	}
+	for i := 0; i < nsat; i++ {
+		n := 100 + rng.Intn(1900)
+		q := 0.05 + 0.9*rng.Float64()
+		cf := 1 - float64(1+rng.Intn(6))*math.Ldexp(1, -53)
+		emit(c11Case{Op: 1, N: n, Q: F64(q), Cs: []F64{F64(cf)}})
+	}
+	// (b5) n > 30, c <= 0 (repaired by "fix: QuantileCI returns an empty or inverted interval for
+	// confidence <= 0 when n > 30") and c just above 0; q such that mu and mu +- 0.5 are integers
+	// (l1 = r1 = mu on a band boundary: the empty rounded band)
+	for _, n := range []int{31, 32, 100, 1000} {
+		fn := float64(n)
+		for _, q := range []float64{0, 0.025, 0.3, 0.5, 0.975, 1, 15.5 / fn, 16 / fn, 16.5 / fn, (fn - 0.5) / fn, 0.5 / fn} {
+			for _, cf := range []float64{0, math.Copysign(0, -1), -1e-9, -0.1, -0.5, -0.9, -3, -1e300, 5e-324, 1e-300, 1e-12, 1e-9} {
+				emit(c11Case{Op: 1, N: n, Q: F64(q), Cs: []F64{F64(cf)}})
+			}
+		}
+	}
+	nneg := 60
+	if thorough {
+		nneg = 600
+	}
+	for i := 0; i < nneg; i++ {
+		n := 31 + rng.Intn(300)
+		q := rng.Float64()
+		if rng.Intn(2) == 0 { // mu a multiple of 1/2
+			q = float64(rng.Intn(2*n+1)) / float64(2*n)
+		}
+		cf := -3 * rng.Float64() * float64(rng.Intn(2))
+		emit(c11Case{Op: 1, N: n, Q: F64(q), Cs: []F64{F64(cf)}})
+	}
+	// (c0) SampleCI on unsorted data with both orders outside the sample (0 and n+1), and one of them
+	nso := 60
+	if thorough {
+		nso = 600
+	}
+	for i := 0; i < nso; i++ {
+		n := 1 + rng.Intn(9)
+		xs := make([]float64, n)
+		kind := rng.Intn(3)
+		for j := range xs {
+			xs[j] = genValue(rng, kind)
+		}
+		if n >= 2 && sort.Float64sAreSorted(xs) { // make sure it is NOT sorted
+			xs[0], xs[n-1] = xs[n-1], xs[0]
+		}
+		cs := c11Case{Op: 2, N: n, Q: F64(qs[rng.Intn(len(qs))]), Xs: toF64s(xs)}
+		switch i % 3 {
+		case 0:
+			cs.Lo, cs.Hi = 0, n+1
+		case 1:
+			cs.Lo, cs.Hi = 0, 1+rng.Intn(n)
+		case 2:
+			cs.Lo, cs.Hi = 1+rng.Intn(n), n+1
+		}
+		emit(cs)
 	}
 	// (c) SampleCI
 	ns2 := 600
